@@ -318,3 +318,9 @@ pub fn drive(files: &[(String, Vec<u8>)], args: &[&str], candidates: &[String]) 
     }
     o
 }
+
+/// Hook H2: the per-pass state digests of the resolver runs executed on this thread since the last call.
+pub fn take_pass_trace() -> Vec<(usize, bool, bool, bool, u64)> {
+    customasm::asm::resolver::verif::take_trace().into_iter().map(|p| (p.iteration, p.is_first, p.is_last, p.resolved, p.state_digest)).collect()
+}
+
